@@ -35,6 +35,7 @@ FIXED = [
  ("F30", "C14", "cd1777d", "Qcow2Dev::new allocated the refcount table with the size the header claims (abort / huge allocation) and asserted on zero-sized tables; qcow2_alloc_dev unwrapped the error; the header buffer was parsed uninitialised when the file is shorter than it", "regress/C14/mutated_image-2.json"),
  ("F31", "C14", "097ea4b", "free_clusters unwrapped a refcount decrement that fails on corrupted refcounts and add_cache_slice added offsets without overflow check (panics on malformed tables)", "regress/C14/mutated_image-4.json"),
  ("F32", "C14", "211bd7f", "cache slice parameters that do not fit the image's cluster size hit a debug assertion / produced bogus geometry instead of an error", "regress/C14/C14-b200b5183831c3bf.json"),
+ ("F33", "C12", "1ce9bb4", "flush_refcount wrote a dirty refcount-table block last and returned without a barrier; a mapping written right after could survive a crash while the table entry linking a newly created refcount block was lost (referenced cluster without refcount)", "regress/C12/reftable-block-not-synced-before-mappings.json"),
  ("F11", "C03", "c069255", "writing to a zero-flagged cluster with a preallocation leaked the preallocated host cluster", "regress/C03/zero-prealloc-write-leaks.json"),
 ]
 KNOWN = [
@@ -59,6 +60,26 @@ KNOWN = [
            "deadlock on slice locks (history contains an eviction during a concurrent batch)",
       rules=["ApiErr", "DiscardErr", "Deadlock", "Budget"], tags=["hist:eviction_during_concurrency"],
       reproducer="findings/C07-eviction-race.json", domain="conc"),
+ dict(id="C12-refcount-table-growth", property="C12",
+      what="growing the refcount table does not work: RefTable::clone_and_grow is called with its arguments in a different order "
+           "from its signature (panic in the slice copy for some geometries), grow_reftable frees the old table while the caller "
+           "holds the table's write lock (the write blocks forever), and only the dirty blocks of the new table are written to its "
+           "new location; any history whose host file can outgrow the coverage of the initial refcount table is affected "
+           "(case predicate: guest clusters + metadata bound >= clusters covered by the initial refcount table)",
+      rules=[], tags=["size:beyond_initial_reftable_coverage"],
+      reproducer="findings/C12-reftable-growth.json", domain="seq"),
+ dict(id="C12-l1-growth", property="C12",
+      what="images whose header lists fewer L1 entries than the virtual size needs: extending l1_size in place claims clusters the "
+           "L1 table does not own (the next cluster is then used as L1 and as L2/data), and the relocation path writes only the "
+           "dirty blocks of the new table (case predicate: image built with l1_size smaller than needed)",
+      rules=[], tags=["image:l1_short"],
+      reproducer="findings/C12-l1-growth.json", domain="seq"),
+ dict(id="C12-slice-eviction-under-concurrency", property="C12",
+      what="same root cause as C06-slice-eviction-under-concurrency: one multi-cluster write runs its per-cluster parts "
+           "concurrently, so with a small cache slices are evicted while sibling parts still use them; the call fails with "
+           "'one write failed' / 'Fail to load l2 table' or loses mappings (a cache slice was evicted during a multi-cluster call)",
+      rules=[], tags=["hist:eviction_during_concurrency"],
+      reproducer="findings/C12-eviction-in-multi-cluster-write.json", domain="seq"),
  dict(id="C17-failed-zeroing-of-new-cluster-keeps-mapping", property="C17",
       what="when both the hole punch and its zero-write fallback fail while a freshly allocated data cluster is zeroed, "
            "write_at returns Err but the new mapping stays (and is flushed later), so the guest cluster reads the stale "
